@@ -111,8 +111,9 @@ Proof. by rewrite Kg_def mulmxDr mulmxN mulmx_ldiv // !mulmxA mulmxN mulNmx. Qed
 (* the unstable block, solved forward: u[t] = Ku + a, u[t-1|t] = Ku + Ru e + J a
    (a = discounted effect of the shocks anticipated after t) *)
 Lemma core_lower (e : 'cV[F]_ne) (a : 'cV[F]_nf) :
-  S22 *m (Ku + a) + T22 *m (Ku + Ru *m e + J *m a) + QC2 + QD2 *m e = 0.
+  S22 *m (Ku + a) + T22 *m (Ku + (Ru *m e + J *m a)) + QC2 + QD2 *m e = 0.
 Proof.
+rewrite addrA.
 have E : S22 *m Ku + T22 *m Ku = - QC2 by rewrite -mulmxDl ST22Ku.
 rewrite !mulmxDr !mulmxA T22Ru T22J !mulNmx.
 have -> : T22 *m Ku = - QC2 - S22 *m Ku.
@@ -124,9 +125,9 @@ Qed.
 (* the stable block in gamma coordinates: s = gamma + G u *)
 Lemma core_upper (g0 : 'cV[F]_nb) (e : 'cV[F]_ne) (a : 'cV[F]_nf) :
   S11 *m ((Tg *m g0 + Kg + Rg *m e - Xg *m a) + G *m (Ku + a)) + S12 *m (Ku + a)
-  + T11 *m (g0 + G *m (Ku + Ru *m e + J *m a)) + T12 *m (Ku + Ru *m e + J *m a) + QC1 + QD1 *m e = 0.
+  + T11 *m (g0 + G *m (Ku + (Ru *m e + J *m a))) + T12 *m (Ku + (Ru *m e + J *m a)) + QC1 + QD1 *m e = 0.
 Proof.
-rewrite Xg_def !mulmxDr !mulmxN !mulmxDl !mulmxDr !mulmxA S11Tg S11Kg S11Rg.
+rewrite !(addrA Ku) Xg_def !mulmxDr !mulmxN !mulmxDl !mulmxDr !mulmxA S11Tg S11Kg S11Rg.
 rewrite !mulmxDr !mulmxDl !mulNmx S11Xg0 S11Xg1 !mulmxDl.
 move: (T11 *m g0) (T11 *m G *m Ku) (T12 *m Ku) (S11 *m G *m Ku) (S12 *m Ku) (T11 *m G *m Ru *m e)
       (T12 *m Ru *m e) (QD1 *m e) (S11 *m G *m a) (S12 *m a) (T11 *m G *m J *m a) (T12 *m J *m a).
@@ -182,12 +183,12 @@ Hypothesis uST22 : S22 + T22 \in unitmx.
 Hypothesis uZ21 : Z21 \in unitmx.
 
 Lemma lower_block (e : 'cV[F]_ne) (a : 'cV[F]_nf) :
-  S22 *m (Ku + a) + T22 *m (Ku + Ru *m e + J *m a) + QC2 + QD2 *m e = 0.
+  S22 *m (Ku + a) + T22 *m (Ku + (Ru *m e + J *m a)) + QC2 + QD2 *m e = 0.
 Proof. exact: (@core_lower F nf ne S22 T22 QC2 QD2 Ku Ru J uT22 uST22 erefl erefl erefl). Qed.
 
 Lemma upper_block (g0 : 'cV[F]_nb) (e : 'cV[F]_ne) (a : 'cV[F]_nf) :
   S11 *m ((Tg *m g0 + Kg + Rg *m e - Xg *m a) + G *m (Ku + a)) + S12 *m (Ku + a)
-  + T11 *m (g0 + G *m (Ku + Ru *m e + J *m a)) + T12 *m (Ku + Ru *m e + J *m a) + QC1 + QD1 *m e = 0.
+  + T11 *m (g0 + G *m (Ku + (Ru *m e + J *m a))) + T12 *m (Ku + (Ru *m e + J *m a)) + QC1 + QD1 *m e = 0.
 Proof.
 exact: (@core_upper F nb nf ne S11 T11 S12 T12 QC1 QD1 G Xg0 Xg1 Xg Ku Ru J Tg Rg Kg uS11
           erefl erefl erefl erefl erefl erefl).
@@ -199,7 +200,7 @@ Proof. exact: (@Z21G F nb nf Z21 Z22 G uZ21 erefl). Qed.
 (* Theorem 1: both blocks of  S w[t] + T w[t-1|t] + Q C + Q D e[t] = 0 *)
 Theorem triangular_solves_system (g0 : 'cV[F]_nb) (e : 'cV[F]_ne) (a : 'cV[F]_nf) :
   let g1 := Tg *m g0 + Kg + Rg *m e - Xg *m a in
-  let u1 := Ku + a in let u0 := Ku + Ru *m e + J *m a in
+  let u1 := Ku + a in let u0 := Ku + (Ru *m e + J *m a) in
   S *m col_mx (g1 + G *m u1) u1 + T *m col_mx (g0 + G *m u0) u0 + Q *m C + Q *m D *m e = 0.
 Proof.
 move=> g1 u1 u0.
